@@ -338,7 +338,7 @@ def run(R):
     lean_ok = vlib.step_lean(R, PID)
     thorough = R.tier == "thorough"
     ov = vlib.jitter_copy(R.tmp, SIGNER_GO)
-    exe, log = vlib.build_harness(R.tmp, extra_overlay=ov)
+    exe, log = vlib.build_harness(R.tmp, extra_overlay=ov, pid=PID)
     if exe is None:
         R.violation("harness does not build against /repo (API used by the correspondence check changed)",
                     {"build_log": log[-3000:]}, no_input=True)
@@ -348,7 +348,7 @@ def run(R):
         # the race detector slows RSA down by an order of magnitude: only the concurrent stream runs under it
         race_dir = os.path.join(R.tmp, "race")
         os.makedirs(race_dir, exist_ok=True)
-        exe_conc, log = vlib.build_harness(race_dir, extra_overlay=ov, race=True)
+        exe_conc, log = vlib.build_harness(race_dir, extra_overlay=ov, race=True, pid=PID)
         if exe_conc is None:
             R.violation("race-detector build of the harness failed", {"build_log": log[-3000:]}, no_input=True)
             return
@@ -509,7 +509,7 @@ def replay(R, path):
     with open(path) as fh:
         p = json.load(fh)
     ov = vlib.jitter_copy(R.tmp, SIGNER_GO)
-    exe, log = vlib.build_harness(R.tmp, extra_overlay=ov)
+    exe, log = vlib.build_harness(R.tmp, extra_overlay=ov, pid=PID)
     R.coverage.update({"obligations": 1, "discharged": 1, "checker_cmd": "replay", "trusted_base": []})
     if exe is None:
         R.violation("harness does not build", {"build_log": log[-3000:]}, no_input=True)
